@@ -213,6 +213,40 @@ func runTask(ti int, spec *wire.TaskSpec) []wire.OpResult {
 	return out
 }
 
+// shareObject makes the value at key path `to` the same object as the one at
+// key path `from` (both below map keys only).
+func shareObject(root any, from, to []string) any {
+	cur := root
+	for _, k := range from {
+		m, ok := cur.(map[string]any)
+		if !ok {
+			return root
+		}
+		cur, ok = m[k]
+		if !ok {
+			return root
+		}
+	}
+	if len(to) == 0 {
+		return root
+	}
+	parent := root
+	for _, k := range to[:len(to)-1] {
+		m, ok := parent.(map[string]any)
+		if !ok {
+			return root
+		}
+		parent, ok = m[k]
+		if !ok {
+			return root
+		}
+	}
+	if m, ok := parent.(map[string]any); ok {
+		m[to[len(to)-1]] = cur
+	}
+	return root
+}
+
 type faultWriter struct {
 	kind string
 	k    int
@@ -276,6 +310,9 @@ func runOp(ts *taskState, op *wire.Op) (r wire.OpResult) {
 		var data any
 		if op.Data != nil {
 			data = op.Data.V
+		}
+		for _, pr := range op.Share {
+			data = shareObject(data, pr[0], pr[1])
 		}
 		doc := bkl.NewDocumentWithData(op.ID, data)
 		for _, pid := range op.Parents {
